@@ -144,7 +144,7 @@ def component_walk(ck, name, cfg, steps):
                             val = None if not dl else None          # deleted: leave to the implementation (documented as -1 / 0 depending on state)
                         else:
                             hs = f.health_status.name
-                            val = Fraction(1) if hs == "GOOD" else Fraction(-1) if hs == "CORRUPT" else Fraction(0)
+                            val = Fraction(1) if hs == "GOOD" else Fraction(-1) if hs == "COMPROMISED" else Fraction(0)     # compromised = what the data manipulation attack leaves
                 elif kind == "SharedReward":
                     val = Fraction(game.agents[comp.config.agent_name].reward_function.current_reward)
                 elif kind == "DummyReward":
